@@ -100,7 +100,7 @@ EvRemoveListener == /\ Is("rl") /\ InCtx /\ alive[Ev.o]
 \* ---- invocation (kind "v") and enumeration (kind "f": forEach, stop = 0; forEachIf stopping at the stop-th visit)
 Push(kind, stop) == /\ InCtx /\ alive[Ev.o]
                     /\ frames' = Append(frames, [l |-> Ev.o, todo |-> lists[Ev.o], cur |-> 0, arg |-> Ev.a, wrapped |-> FALSE,
-                                                 base |-> Len(cbOf), extra |-> {}, kind |-> kind, stop |-> stop, seen |-> 0])
+                                                 base |-> Len(cbOf), extra |-> {}, kind |-> kind, stop |-> stop, seen |-> 0, thrown |-> FALSE])
                     /\ UNCHANGED <<lists, alive, cbOf, until, pins>>
 EvInvokeBegin == Is("vb") /\ Push("v", 0)
 EvForEachBegin == Is("fb") /\ Push("f", Ev.b)
@@ -117,7 +117,7 @@ Callee(f, c) ==
 Advance(f, n) == LET t == Live(f.l, f.todo) IN
                  IF t # <<>> /\ n = Head(t) THEN [f EXCEPT !.todo = Tail(t)] ELSE [f EXCEPT !.todo = t, !.extra = @ \cup {n}]
 
-EvEnter == /\ Is("en") /\ frames # <<>> /\ Top.cur = 0 /\ Top.kind = "v" /\ Ev.b = Top.arg
+EvEnter == /\ Is("en") /\ frames # <<>> /\ Top.cur = 0 /\ Top.kind = "v" /\ ~Top.thrown /\ Ev.b = Top.arg
            /\ \E n \in Callee(Top, Ev.a) : frames' = [frames EXCEPT ![Len(frames)] = [Advance(Top, n) EXCEPT !.cur = n]]
            /\ LvOk(lists, alive, pins) /\ UNCHANGED <<lists, alive, cbOf, until, pins>>
 EvRet == /\ Is("rt") /\ frames # <<>> /\ Top.cur # 0 /\ cbOf[Top.cur] = Ev.a
@@ -125,7 +125,7 @@ EvRet == /\ Is("rt") /\ frames # <<>> /\ Top.cur # 0 /\ cbOf[Top.cur] = Ev.a
          /\ UNCHANGED <<lists, alive, cbOf, until, pins>>
 Pop == /\ frames' = SubSeq(frames, 1, Len(frames) - 1)
        /\ pins' = IF Len(frames) = 1 THEN 0 ELSE pins
-EvInvokeEnd == /\ Is("ve") /\ frames # <<>> /\ Top.cur = 0 /\ Top.kind = "v" /\ Live(Top.l, Top.todo) = <<>>
+EvInvokeEnd == /\ Is("ve") /\ frames # <<>> /\ Top.cur = 0 /\ Top.kind = "v" /\ ~Top.thrown /\ Live(Top.l, Top.todo) = <<>>
                /\ Pop /\ LvOk(lists, alive, pins') /\ UNCHANGED <<lists, alive, cbOf, until>>
 \* enumeration: the function sees handle Ev.a (node) and callback identity Ev.b
 EvVisit == /\ Is("vi") /\ frames # <<>> /\ Top.kind = "f" /\ Top.cur = 0 /\ (Top.stop = 0 \/ Top.seen < Top.stop)
@@ -136,6 +136,17 @@ EvForEachEnd == /\ Is("fe") /\ frames # <<>> /\ Top.kind = "f"
                 /\ IF Top.stop # 0 /\ Top.seen = Top.stop THEN Ev.r = 0
                    ELSE Live(Top.l, Top.todo) = <<>> /\ Ev.r = 1
                 /\ Pop /\ UNCHANGED <<lists, alive, cbOf, until>>
+
+\* ---- exceptions (C09)
+\* a callback throws: the exception reaches the caller of the invocation, no further callback of that invocation runs,
+\* the list is as the callbacks left it
+EvThrow == /\ Is("xt") /\ frames # <<>> /\ Top.cur # 0 /\ cbOf[Top.cur] = Ev.a /\ Top.kind = "v"
+           /\ frames' = [frames EXCEPT ![Len(frames)].cur = 0, ![Len(frames)].thrown = TRUE]
+           /\ UNCHANGED <<lists, alive, cbOf, until, pins>>
+EvInvokeExit == /\ Is("vx") /\ frames # <<>> /\ Top.cur = 0 /\ Top.kind = "v" /\ Top.thrown
+                /\ Pop /\ LvOk(lists, alive, pins') /\ UNCHANGED <<lists, alive, cbOf, until>>
+\* an operation failed with an injected allocation failure / throwing copy: it reached the caller and left everything as it was
+EvFaulted == /\ Is("xf") /\ InCtx /\ LvOk(lists, alive, pins) /\ UNCHANGED <<lists, alive, cbOf, until, frames, pins>>
 
 \* ---- whole-object operations (C10)
 NoFrameOn(i) == \A d \in DOMAIN frames : frames[d].l # i
@@ -174,7 +185,8 @@ EvReset == /\ Is("rs") /\ frames = <<>> /\ \A i \in Lists : ~alive[i] /\ Ev.lv =
            /\ lists' = [i \in Lists |-> <<>>] /\ alive' = [i \in Lists |-> i = 1] /\ cbOf' = <<>>
            /\ until' = [i \in Lists |-> Big] /\ frames' = <<>> /\ pins' = 0
 
-Next == \/ EvHasListener \/ EvHasAny \/ EvRemoveListener
+Next == \/ EvThrow \/ EvInvokeExit \/ EvFaulted
+        \/ EvHasListener \/ EvHasAny \/ EvRemoveListener
         \/ EvSetCtr \/ EvJump \/ EvAppend \/ EvPrepend \/ EvInsert \/ EvRemove \/ EvOwns \/ EvEmpty
         \/ EvInvokeBegin \/ EvEnter \/ EvRet \/ EvInvokeEnd \/ EvForEachBegin \/ EvVisit \/ EvForEachEnd
         \/ EvCopyConstruct \/ EvCopyAssign \/ EvMoveConstruct \/ EvMoveAssign \/ EvSwap \/ EvDestroy \/ EvReset
